@@ -22,7 +22,7 @@ from .. import multi
 ID = "C11"
 LEVEL = "exploration"
 RULE = ("random rules over 1-3 variables: head V3(f1=x_first, f2=<attribute chain | method call | constant>, f3=x_last), "
-        "optionally given positionally; a head argument that is a flattened expression also constrained by the body (one instance per element); a head argument expression that an earlier evaluated query used as its condition; or head W(v=Tag(o=x_first), g=x_first, h=..., l=x_last) whose nested term selects "
+        "optionally given positionally; a head argument that is a flattened expression also constrained by the body (one instance per element); a head argument expression that an earlier evaluated query used as its condition; a head argument concatenate(e.subs) / concatenate(p.items) over an already bound flattened element e of p (rule evaluated twice); or head W(v=Tag(o=x_first), g=x_first, h=..., l=x_last) whose nested term selects "
         "the existing Tag objects of that binding (given with From(tags) or through the registry; 0-2 tags per object); bodies of depth 0-3 with "
         "conjunction, disjunction (leaving head variables unbound on one side), negation, predicates, bodies with zero "
         "solutions; caching on and off; the head mentions every variable of the rule (the statement's premise). "
